@@ -6,8 +6,7 @@
       an invariant of the semantic actions, pattern of PrettyProofs.parse_ops_nonempty;
    C. the default copy of a parsed tree prints the query back (under C01's guard) and re-parses to the
       very same tree;
-   D. the truth-table comparison `meaning_eqb` is sound and complete for "same meaning";
-   E. a plain implicit query `w1 w2 ... wn` resolved to AND / OR re-parses to the resolved tree. *)
+   D. the truth-table comparison `meaning_eqb` is sound and complete for "same meaning". *)
 Require Import Base Decimal Tree TreeEq GenTree Eq EqSpec Print TreeInd EqProofs Meaning.
 Require Import GenParser Lexer Actions LR Parser Erase LRProofs Traverse TraverseProofs.
 From Coq Require Import Lia.
@@ -215,4 +214,165 @@ Proof.
   rewrite copy_dcopy in Hc. inversion Hc; subst. split.
   - apply dcopy_print. eapply all_nodes_impl; [|exact Hwf]. intros n Hn. apply (wf_node_stable n Hn).
   - apply dcopy_eq. eapply all_nodes_impl; [|exact Hwf]. intros n Hn. apply (wf_node_stable n Hn).
+Qed.
+
+(* ================================================================ D. the truth-table comparison *)
+
+Section FpInd.
+  Variable P : fp -> Prop.
+  Hypothesis HTerm : forall k v, P (FTerm k v).
+  Hypothesis HField : forall n e, P e -> P (FField n e).
+  Hypothesis HGroup : forall k e, P e -> P (FGroup k e).
+  Hypothesis HRange : forall il ih lo hi, P lo -> P hi -> P (FRange il ih lo hi).
+  Hypothesis HFuzzy : forall d t, P t -> P (FFuzzy d t).
+  Hypothesis HProx : forall d t, P t -> P (FProximity d t).
+  Hypothesis HBoost : forall f e, P e -> P (FBoost f e).
+  Hypothesis HOp : forall k ops, Forall P ops -> P (FOp k ops).
+  Hypothesis HUnary : forall k a, P a -> P (FUnary k a).
+  Hypothesis HORange : forall k i a, P a -> P (FORange k i a).
+  Hypothesis HNone : P FNone.
+
+  Fixpoint fp_ind' (t : fp) : P t :=
+    match t with
+    | FTerm k v => HTerm k v
+    | FField n e => HField n e (fp_ind' e)
+    | FGroup k e => HGroup k e (fp_ind' e)
+    | FRange il ih lo hi => HRange il ih lo hi (fp_ind' lo) (fp_ind' hi)
+    | FFuzzy d t => HFuzzy d t (fp_ind' t)
+    | FProximity d t => HProx d t (fp_ind' t)
+    | FBoost f e => HBoost f e (fp_ind' e)
+    | FOp k ops =>
+        HOp k ops ((fix go (l : list fp) : Forall P l :=
+                      match l with
+                      | [] => Forall_nil P
+                      | c :: l' => Forall_cons c (fp_ind' c) (go l')
+                      end) ops)
+    | FUnary k a => HUnary k a (fp_ind' a)
+    | FORange k i a => HORange k i a (fp_ind' a)
+    | FNone => HNone
+    end.
+End FpInd.
+
+Lemma fp_eqb_eq : forall a b, fp_eqb a b = true -> a = b.
+Proof.
+  induction a using fp_ind'; intros b Hb; destruct b; simpl in Hb; try discriminate;
+    repeat match goal with
+    | Hx : _ && _ = true |- _ => apply andb_prop in Hx; destruct Hx
+    end;
+    repeat match goal with
+    | Hx : str_eqb _ _ = true |- _ => apply str_eqb_eq in Hx
+    | Hx : Bool.eqb _ _ = true |- _ => apply Bool.eqb_prop in Hx
+    | Hx : dec_struct_eqb _ _ = true |- _ => apply TraverseProofs.dec_struct_eqb_eq in Hx
+    | Hx : Z.eqb _ _ = true |- _ => apply Z.eqb_eq in Hx
+    | Hx : fp_eqb ?x _ = true, IH : forall b, fp_eqb ?x b = true -> _ |- _ => apply IH in Hx
+    end; subst; try reflexivity.
+  - destruct k, k0; try discriminate; reflexivity.
+  - destruct k, k0; try discriminate; reflexivity.
+  - assert (ops = ops0); [|destruct k, k0; try discriminate; subst; reflexivity].
+    match goal with Hx : _ ops ops0 = true |- _ => revert ops0 Hx end. clear -H.
+    induction H as [|c l Hc _ IH]; intros [|c' l'] Hx; try discriminate; [reflexivity|].
+    apply andb_prop in Hx. destruct Hx as [H1 H2]. rewrite (Hc _ H1), (IH _ H2). reflexivity.
+  - destruct k, k0; try discriminate; reflexivity.
+  - destruct k, k0; try discriminate; reflexivity.
+Qed.
+
+Lemma fp_eqb_refl : forall a, fp_eqb a a = true.
+Proof.
+  induction a using fp_ind'; simpl;
+    rewrite ?str_eqb_refl, ?Bool.eqb_reflx, ?TraverseProofs.dec_struct_eqb_refl, ?Z.eqb_refl; simpl;
+    repeat match goal with IH : fp_eqb _ _ = true |- _ => rewrite IH; clear IH end; simpl; try reflexivity;
+    try (destruct k; reflexivity).
+  replace (opk_beq k k) with true by (destruct k; reflexivity). simpl.
+  induction H as [|c l Hc _ IH]; [reflexivity|]. rewrite Hc, IH. reflexivity.
+Qed.
+
+Lemma ctxel_eqb_eq a b : ctxel_eqb a b = true <-> a = b.
+Proof.
+  destruct a, b; simpl; split; intros H; try discriminate.
+  - apply str_eqb_eq in H. congruence.
+  - inversion H; subst. apply str_eqb_refl.
+  - apply TraverseProofs.dec_struct_eqb_eq in H. congruence.
+  - inversion H; subst. apply TraverseProofs.dec_struct_eqb_refl.
+Qed.
+
+Lemma atom_eqb_eq a b : atom_eqb a b = true <-> a = b.
+Proof.
+  destruct a as [c x], b as [c' x']. unfold atom_eqb. simpl. split.
+  - intros H. apply andb_prop in H. destruct H as [H1 H2].
+    apply (list_eqb_eq ctxel_eqb ctxel_eqb_eq) in H1. apply fp_eqb_eq in H2. congruence.
+  - intros H. inversion H; subst. rewrite fp_eqb_refl.
+    rewrite (proj2 (list_eqb_eq ctxel_eqb ctxel_eqb_eq c' c') eq_refl). reflexivity.
+Qed.
+
+Lemma mem_atom_In a l : mem_atom a l = true <-> In a l.
+Proof.
+  unfold mem_atom. rewrite existsb_exists. split.
+  - intros [x [Hx He]]. apply atom_eqb_eq in He. subst. exact Hx.
+  - intros H. exists a. split; [exact H|]. apply atom_eqb_eq. reflexivity.
+Qed.
+
+Lemma dedup_In a l : In a (dedup l) <-> In a l.
+Proof.
+  induction l as [|x l IH]; simpl; [tauto|].
+  destruct (mem_atom x l) eqn:E.
+  - rewrite IH. split; [auto|]. intros [->|H]; [apply mem_atom_In; exact E|exact H].
+  - simpl. rewrite IH. tauto.
+Qed.
+
+Lemma filter_in_sublists (f : atom -> bool) : forall l, In (filter f l) (sublists l).
+Proof.
+  induction l as [|a l IH]; simpl; [auto|]. apply in_or_app.
+  destruct (f a); [right; apply in_map; exact IH|left; exact IH].
+Qed.
+
+Lemma forallb_ext_in {A} (f g : A -> bool) l : (forall x, In x l -> f x = g x) -> forallb f l = forallb g l.
+Proof.
+  induction l as [|a l IH]; simpl; intros H; [reflexivity|]. rewrite (H a), IH; auto.
+Qed.
+Lemma existsb_ext_in {A} (f g : A -> bool) l : (forall x, In x l -> f x = g x) -> existsb f l = existsb g l.
+Proof.
+  induction l as [|a l IH]; simpl; intros H; [reflexivity|]. rewrite (H a), IH; auto.
+Qed.
+
+(* the meaning only looks at the atoms of the tree *)
+Lemma fsem_ext d v v' : forall t cx,
+  (forall x, In x (fatoms cx t) -> v x = v' x) -> fsem d v cx t = fsem d v' cx t.
+Proof.
+  induction t using fp_ind'; intros cx Hv; simpl in *; try (apply Hv; left; reflexivity); auto.
+  - (* operations *)
+    assert (E : forall c, In c ops -> fsem d v cx c = fsem d v' cx c).
+    { intros c Hc. rewrite Forall_forall in H. apply (H c Hc). intros x Hx. apply Hv.
+      apply in_flat_map. exists c. auto. }
+    destruct k.
+    + apply forallb_ext_in. exact E.
+    + apply existsb_ext_in. exact E.
+    + destruct d; [apply forallb_ext_in|apply existsb_ext_in]; exact E.
+    + unfold bool_reading. f_equal.
+      * apply forallb_ext_in. intros c Hc. rewrite (E c Hc). reflexivity.
+      * destruct (existsb is_plain ops && negb (existsb is_plus ops)); [|reflexivity].
+        apply existsb_ext_in. intros c Hc. rewrite (E c Hc). reflexivity.
+  - destruct k; rewrite (IHt cx Hv); reflexivity.
+Qed.
+
+Lemma sem_ext d v v' t : (forall x, In x (atoms t) -> v x = v' x) -> sem d v t = sem d v' t.
+Proof. apply fsem_ext. Qed.
+
+Theorem meaning_eqb_correct a b : meaning_eqb a b = true <-> forall d v, sem d v a = sem d v b.
+Proof.
+  unfold meaning_eqb. split.
+  - intros H d v. rewrite forallb_forall in H.
+    set (L := dedup (atoms a ++ atoms b)) in *.
+    specialize (H (filter v L) (filter_in_sublists v L)).
+    assert (Hag : forall x, In x L -> v x = val_of (filter v L) x).
+    { intros x Hx. unfold val_of. destruct (v x) eqn:E.
+      - symmetry. apply mem_atom_In. apply filter_In. auto.
+      - symmetry. destruct (mem_atom x (filter v L)) eqn:E2; [|reflexivity].
+        apply mem_atom_In, filter_In in E2. destruct E2; congruence. }
+    assert (Ha : sem d v a = sem d (val_of (filter v L)) a).
+    { apply sem_ext. intros x Hx. apply Hag. apply dedup_In. apply in_or_app. auto. }
+    assert (Hb : sem d v b = sem d (val_of (filter v L)) b).
+    { apply sem_ext. intros x Hx. apply Hag. apply dedup_In. apply in_or_app. auto. }
+    rewrite Ha, Hb. apply andb_prop in H. destruct H as [H1 H2].
+    destruct d; apply Bool.eqb_prop; assumption.
+  - intros H. apply forallb_forall. intros l _. rewrite !H, !Bool.eqb_reflx. reflexivity.
 Qed.
